@@ -265,3 +265,20 @@ _patch('C04', 'level_text', 'run_fun / run_method fix that boundary as the frame
 _patch('C04', 'level_note', 'Not decided: PopHandler emission on every exit path (Compiler), ', 'Not decided: that every statement is compiled at the try depth of its enclosing try blocks is the composition of the compilerd contracts over the AST (each step checked, the induction over the tree not), ')
 _patch('C02', 'level_text', 'What is NOT decided is the larger half of the property:',
        'Front-end pieces (stub-and-log extraction): the run-time capture table (captures unit: Captures::get_capture / get_capture_value / set_capture_value read and write the cell itself, bit for bit, D19 fixed); Resolver::for_ declares the loop variable inside the per-iteration scope so every iteration gets a fresh cell (resolverd, D24 fixed); Compiler::catch declares the error variable in the catch scope (catchd). What is NOT decided is the larger half of the property:')
+
+# ---- gcglue unit (C05 / C20 / C09) -------------------------------------------------------------------------------------------------------
+_patch('C05', 'level_text', 'Bounded (Kani): the real dispatch per kind',
+       'The allocator glue (gcglue unit, real Allocator::collect_garbage / collect_garbage_with_value / allocate / allocate_obj / manage / manage_obj / push_root / pop_roots over ghost heaps and an explicit mark set): a collection marks the context and EVERY temporary root before anything is swept, nothing owned and reachable from them is released, and an allocation that triggers a collection roots the object being allocated for exactly that collection, so it is owned afterwards. Bounded (Kani): the real dispatch per kind')
+_patch('C05', 'level_note', 'NOT decided: natives', 'In the gcglue unit the three sweeps and tracing are stubs with stated contracts (A-gcglue; the sweep bodies are the bounded Kani harnesses), default feature set only (R3c). NOT decided: natives')
+_patch('C20', 'level_text', 'Complete (all usize lengths):',
+       'Unbounded (Verus, gcglue unit) on the real Allocator::collect_garbage / collect_garbage_with_value / sweep_obj_heap / allocate / allocate_obj over the stated contracts of the three sweeps: after a collection bytes_allocated is the sum of the sizes of what the three heaps still hold and next_gc is twice that; the boxed heap holds exactly its reachable part and, at least every 10th collection, so do both object generations (otherwise the old generation may stay); no mark is left on anything owned; between collections bytes_allocated is the sum of the sizes of everything allocated; an allocation adds the new object and nothing else. Complete (all usize lengths):')
+_patch('C20', 'level_note', 'Trusted: CBMC/Kani memory model;', 'Trusted: the contracts of sweep_obj_full / sweep_obj_nursery / sweep_heap assumed by the gcglue unit (A-gcglue; their bodies are what the bounded Allocator harnesses run), bytes_allocated < usize::MAX / 2 (A-mem), default feature set (gc_stress and gc_log_* builds not extracted); CBMC/Kani memory model;')
+CHECKS['C20']['technique'] = 'Verus contracts on the real allocator glue (accounting, threshold, exactly-the-reachable) over ghost heaps; Kani on the real laythe_core: loop-free full-domain harnesses for the layout arithmetic, bounded harnesses for allocate/size/release per kind and for the sweeps'
+CHECKS['C20']['engine'] = 'vx'
+_patch('C09', 'level_text', 'Interning twice / create-drop-collect-recreate follow from these contracts.',
+       'Interning twice / create-drop-collect-recreate follow from these contracts. In the real collect_garbage the cache is swept after every root has been traced and before any sweep clears a mark, so it keeps exactly the entries whose string was reached (gcglue unit).')
+for _e in ENGINES:
+  if _e['name'] == 'vx':
+    for _p in ('C02', 'C05', 'C10', 'C20'):
+      if _p not in _e['serves_properties']: _e['serves_properties'].append(_p)
+    _e['serves_properties'].sort()
